@@ -168,7 +168,27 @@ def method_block(pname, shape, idx, with_macro=False):
     return "\n".join(src)
 
 
-def call_matrix(policies, shapes, extra=""):
+def static_slots(shape):
+    n = arity(shape)
+    return [1000 * (k + 1) + 7 for k in range(n)], [70000 + 1000 * k + 3 for k in range(1, n)]
+
+
+def static_method_block(pname, shape, idx):
+    """a method whose slots/strides come from a detail::static_offsets specialisation (generated header)."""
+    P = POLICIES[pname]
+    ns = "so_%s_%d" % (pname, idx)
+    margs = [ALLK[ch][0].format(P=P) for ch in shape]
+    blk = method_block(pname, shape, idx).replace("namespace w_%s_%d {" % (pname, idx), "namespace %s {" % ns, 1)
+    lines = blk.split("\n")
+    head = "\n".join(lines[:3]) + "\n}"
+    slots, strides = static_slots(shape)
+    spec = "template<> struct yorel::yomm2::detail::static_offsets<%s::M> { static constexpr std::size_t slots[] = {%s};%s };" % (
+        ns, ", ".join(map(str, slots)), (" static constexpr std::size_t strides[] = {%s};" % ", ".join(map(str, strides))) if strides else "")
+    tail = "namespace %s {\n" % ns + "\n".join(lines[3:])
+    return head + "\n" + spec + "\n" + tail, ns
+
+
+def call_matrix(policies, shapes, extra="", static_shapes=()):
     """One TU: the prelude, class registrations for each policy, one method per (policy, shape)."""
     src = [PRELUDE]
     for p in policies:
@@ -181,6 +201,12 @@ def call_matrix(policies, shapes, extra=""):
                 pass
             src.append(method_block(p, s, idx))
             index.append({"ns": "w_%s_%d" % (p, idx), "policy": p, "shape": s})
+            idx += 1
+        for s in static_shapes:
+            blk, ns = static_method_block(p, s, idx)
+            src.append(blk)
+            sl, st = static_slots(s)
+            index.append({"ns": ns, "policy": p, "shape": s, "static": True, "slots": sl, "strides": st})
             idx += 1
     src.append(extra)
     return "\n".join(src), index
